@@ -300,10 +300,15 @@ func Snapshot(n *Node, p *Parties, ctx sdk.Context) map[string]string {
 			}
 		}
 	}
-	for _, r := range n.T.GetEarnKeeper().GetAllVaultShareRecords(ctx) {
+	ek := n.T.GetEarnKeeper()
+	for _, r := range ek.GetAllVaultShareRecords(ctx) {
 		if pp, ok := partyName(p, r.Depositor); ok {
 			for _, sh := range r.Shares {
-				out["earn-shares/"+pp+"/"+sh.Denom] = sh.Amount.String()
+				// compare what the shares are worth: the number of shares issued for a deposit scales a
+				// one-unit difference of the vault's value (interest the export settled) by the share price
+				if v, err := ek.ConvertToAssets(ctx, sh); err == nil {
+					put("earn-value/"+pp+"/"+sh.Denom, v.Amount)
+				}
 			}
 		}
 	}
